@@ -377,7 +377,7 @@ func languages(n *gobig.Int, fs []pp) langs {
 	var l langs
 	phi := phiOf(fs)
 	l.sfMust = !isOne(gcd(n, phi))
-	l.pppMust = len(fs) >= 3
+	l.pppMust = distinctOddPrimes(fs) >= 3 // the claims of KeyProof.tla are about odd N; an even N falls to N = 5 (mod 8)
 	prime := len(fs) == 1 && fs[0].K == 1
 	l.dppMust = prime || !isOne(gcd(oddPart(sub(n, b1)), phi))
 	pr := prover{n: n, fs: fs}
@@ -557,7 +557,7 @@ func judge(res *hx.Result, comp string, code string, own bool, must bool, d0 hx.
 	case code == "reject" && own:
 		report(res, "good-rejected", fmt.Sprintf("%s verifier rejected responses that satisfy all its round equations, modulus %v (%v)", comp, d["n"], d["shape"]), d)
 	case code == "accept" && must:
-		res.Count(fmt.Sprintf("lucky:%v", d["sub"])) // every round answerable although the language excludes the modulus
+		res.Count(fmt.Sprintf("lucky:%v:%s:%v", d["sub"], comp, d["shape"])) // every round answerable although the language excludes the modulus
 	}
 	res.Count(comp + ":" + code)
 }
